@@ -244,7 +244,17 @@ def build(run):
         if isinstance(st, ast.FunctionDef):
             run.under_contract(E0, f"{OC.QOPS}::{st.name}")
     lib.lean_lemmas(run, ["inv_reach"])
-    for part in (lambda r: OC.explore_cases(r, handler(r), "C06", r.tier), qbits_cases, qbytes_unflatten):
+    def requant_results(r_):
+        # results of the re-quantizing ops (_softmax, where) and of the contractions that return quantized tensors
+        from props import C05
+
+        def on_result(E, r, tag, inst, res, rd, rp):
+            if is_wrapper(res):
+                check_tensor(r_, E, r, f"requant/{tag}", inst, res, lambda m, s, i=dict(inst): replay(m, s, i["case"], i), d=rd)
+
+        C05.requant_ops(r_, on_result=on_result, prefix="C06")
+
+    for part in (lambda r: OC.explore_cases(r, handler(r), "C06", r.tier), qbits_cases, qbytes_unflatten, requant_results):
         try:
             part(run)
         except Unsupported as u:
@@ -288,6 +298,8 @@ def replay(model, seed, case, inst):
         "transpose": lambda: [qa.transpose(0, 1)], "t-2d": lambda: [qa.t()], "permute": lambda: [qa.permute(1, 0)], "select": lambda: [qa.select(0, 0)],
         "slice": lambda: [qa[0:1]], "unsqueeze": lambda: [qa.unsqueeze(0)], "view-flat": lambda: [qa.view(-1)], "clone": lambda: [qa.clone()],
         "detach": lambda: [qa.detach()], "to_copy-dtype": lambda: [qa.to(torch.float16)], "div-scalar": lambda: [qa / 2.0], "mul-scalar-q": lambda: [3.0 * qa],
+        "_softmax": lambda: [torch.softmax(qa, -1)], "where-q-plain": lambda: [torch.where(x > 0, qa, torch.full_like(x, 0.25))],
+        "where-q-scalar": lambda: [torch.where(x > 0, qa, 0.25)],
         "neg": lambda: [-qa], "relu": lambda: [torch.relu(qa)], "cat-same-scale": lambda: [torch.cat([qa, qa])], "stack-same-scale": lambda: [torch.stack([qa, qa])],
     }
     f = progs.get(case)
